@@ -225,8 +225,17 @@ DEPTH_PLAUSIBLE = 500          # a single translation with 500 tags / variables 
 
 def pipeline(ctx):
     macro, build = pipeline_exes(ctx)
-    root = os.path.join(ctx.work, "pipeline")
+    # one directory per invocation: concurrent checks must not share project / depth-probe directories
+    root = os.path.join(ctx.work, "pipeline_s%d_%d" % (ctx.seed, os.getpid()))
     os.makedirs(root, exist_ok=True)
+    try:
+        return _pipeline(ctx, macro, build, root)
+    finally:
+        import shutil
+        shutil.rmtree(root, ignore_errors=True)
+
+
+def _pipeline(ctx, macro, build, root):
     named = pipeline_gen.named_cases(ctx.rng)
     projs = named + [pipeline_gen.random_case(ctx.rng) for _ in range(700 if ctx.quick else 8000)]
     results = run_projects(root, macro, build, projs, "p")
